@@ -62,8 +62,8 @@ def extract(F, macro, n):
         rr = symex.render(symex.deep(st, r))
         if "eval_ident#" in rr and ".Err.0" in rr:
             continue                                   # the loop-variable argument is not an identifier: before the loop
-        if re.search(r"expects exactly|expects 4 arguments|only avail", rr):
-            continue
+        if rr.startswith("CelValue::from_err(") and not any(e[0] == "call" and e[1] == "run_raw" for e in st.trace):
+            continue                                   # wrong arity / not a list: an error raised before anything is evaluated (whatever its wording)
         if macro == "reduce" and any(c[0] == "ne" and "nested_deeper_than(" in str(c[1]) for c in st.cond):
             continue                                   # the accumulator is nested too deeply: an error by C01 R01.8, not part of the fold
         # steps from the trace
